@@ -175,6 +175,16 @@ func (w *requestWriter) encodeHeaders(req *http.Request, addGzipHeader bool, tra
 				// fields. We have already checked if any
 				// are error-worthy so just ignore the rest.
 				continue
+			} else if strings.EqualFold(k, "te") {
+				// RFC 9114, section 4.2: the only value TE may carry in HTTP/3 is "trailers";
+				// the peer treats anything else as malformed (so does our own parser).
+				var te []string
+				for _, v := range vv {
+					if strings.EqualFold(strings.TrimSpace(v), "trailers") {
+						te = append(te, "trailers")
+					}
+				}
+				vv = te
 			} else if strings.EqualFold(k, "user-agent") {
 				// Match Go's http1 behavior: at most one
 				// User-Agent. If set to nil or empty string,
